@@ -30,7 +30,7 @@ fn main() {
         std::process::exit(2);
     }
     let mut c = Check::new("C15", args.tier, "model_checking");
-    c.rule = "DFS over every interleaving (bounded depth) of device chunks (1, 3, 4096 bytes; also delivered while a blocking read waits, with every chunk size) and driver calls recv(peek), recv(pop), read(1|5), fill_buf+consume(0|1|all), read_ready, ack_interrupt, send, send_bytes; the device stream is 1,2,3,... so loss, duplication and reordering are visible. distinct = distinct observation signatures".into();
+    c.rule = "DFS over every interleaving (bounded depth) of device chunks (1, 3, 4096 bytes; also delivered while a blocking read waits, with every chunk size) and driver calls recv(peek), recv(pop), read(1|5), fill_buf+consume(0|1|all), read_ready, ack_interrupt, send, send_bytes, embedded-io Write::write (2 and 4097 bytes, empty), write_all (8193 bytes), fmt::Write::write_str; the device stream is 1,2,3,... so loss, duplication and reordering are visible. distinct = distinct observation signatures".into();
     for (t, d) in parts(args.tier) {
         let part = format!("console:{}:depth={}", t.name(), d);
         let mut cfg = DfsConfig::new(&part, 0);
